@@ -641,9 +641,9 @@ func runDist(rc *RunCtx, prop string) {
 		"states": int(st.blocks) + len(cfgs), "transitions": int(st.blocks), "traces_validated_against_impl": 0,
 		"configurations_enumerated": int(st.candidates), "configurations_accepted_by_validation": int(st.accepted),
 		"configurations_with_several_bank_sources": int(st.multiSource),
-		"blocks_leaving_fractional_leftovers": int(st.withRemainder),
-		"inflow_patterns": pn, "blocks_per_history": depth, "histories_per_configuration": x, "exhaustive": true,
-		"samples": samples,
+		"blocks_leaving_fractional_leftovers":      int(st.withRemainder),
+		"inflow_patterns":                          pn, "blocks_per_history": depth, "histories_per_configuration": x, "exhaustive": true,
+		"samples":     samples,
 		"explanation": "states = (configuration, inflow-history prefix) pairs, transitions = real cfedistributor.BeginBlocker calls on store branches of the real application; configurations are the complete product alphabet filtered by the real Params.Validate.",
 	}
 	rc.Assume = []string{"module level: inflows are placed into source accounts directly and only the distributor's BeginBlocker runs, so no other module moves the audited coins"}
